@@ -51,7 +51,7 @@ TEXT.update({
             "level": FLOW_LEVEL + "Stop(force) is issued at every quiescent point within the bound, with each subset of {destination, DLQ} blocked (their gates are never granted). Oracle: WaitPipeline returns, final status Degraded, no automatic re-open of the source, C01 keeps holding, and a following Start re-opens the source at a position not past any unhandled record.",
             "design_ref": "DESIGN.md section 6, C12", "note": FLOW_NOTE + " One listed known finding (force stop does not cancel a pending recovery in v1)."},
     "C14": {"engine": "seqbox", "technique": "explicit-state BFS over the real orchestrator + services (state = operation history replayed on fresh instances), with single store-operation fault injection at every index",
-            "level": "Breadth-first search over API histories (create/update/delete/start/stop of pipelines, connectors, processors with valid and invalid arguments, API- and file-provisioned, stopped and running), depth 3 (quick) / 4 (thorough), deduplicated by a canonical dump; every call is also executed with its k-th store write/commit failing for every k. Oracles per transition: error => memory dump and stored key set identical to the pre-state; memory == fresh services initialised from the store; references mutually consistent; resources of running / file-provisioned pipelines untouched.",
+            "level": "Breadth-first search over API histories (create/update/delete/start/stop of pipelines, connectors, processors with valid and invalid arguments, API- and file-provisioned, stopped and running), depth 4 (quick) / 5 (thorough), deduplicated by a canonical dump; every call is also executed with its k-th store write/commit failing for every k. Oracles per transition: error => memory dump and stored key set identical to the pre-state; memory == fresh services initialised from the store; references mutually consistent; resources of running / file-provisioned pipelines untouched.",
             "design_ref": "DESIGN.md section 6, C14", "note": "<=2 pipelines, 2 connectors, 2 processors; plugins are scripted; the lifecycle service is a stub that only flips the stored status; single-fault model (one failing store write per call). Two listed known findings."},
     "C18": {"engine": "seqbox", "technique": "literal exhaustion of the IPv4 space and of IPv6 prefix structure through the real guard + bounded-exhaustive enumeration of resolver answers and policy pairs",
             "level": "Refuse() is evaluated on every IPv4 address (thorough: all 2^32; quick: 4 addresses of every /24 plus every floor boundary +-2) in 8 carrier forms (4-byte, v4-mapped, NAT64, v4-translated, 6to4, Teredo client/server, v4-compatible) against an independent integer-range classifier of the documented refused floor; all 65536 leading IPv6 hextets x tails; every resolver answer sequence of length <=2/<=3 over a 14-class address alphabet x allowlists x ports through the real dialContext/dialControl (attempts observed at the dialer Control hook); every (processor policy, ceiling) pair over a 4-entry universe x secret refs x timeouts x sizes through ResolvePolicy.",
